@@ -34,68 +34,82 @@ def Ang.signed [Neg α] (negate : Bool) (t : Ang α) : Ang α := if negate then 
 /-- `c² + s² = 1` -/
 def Ang.Unit [Add α] [Mul α] [OfNat α 1] (t : Ang α) : Prop := t.c * t.c + t.s * t.s = 1
 def Ang3.Unit [Add α] [Mul α] [OfNat α 1] (t : Ang3 α) : Prop := t.a.Unit ∧ t.b.Unit ∧ t.c.Unit
-/-- column `k` of an `(n, 3)` angle array -/
-def Ang3.slot (t : Ang3 α) : Nat → Ang α
-  | 0 => t.a
-  | 1 => t.b
-  | _ => t.c
+/-- column `k` of an `(n, 3)` angle array; `none` for any other index (numpy raises IndexError) -/
+def Ang3.slot? (t : Ang3 α) : Nat → Option (Ang α)
+  | 0 => some t.a
+  | 1 => some t.b
+  | 2 => some t.c
+  | _ => none
 
 section rotations
 variable [OfNat α 0] [OfNat α 1] [Neg α] [Add α] [Mul α]
 
-/-- elementary active rotation about the axis named by a letter of a scipy sequence string -/
-def axisRot (ax : Char) (t : Ang α) : M3 α :=
-  if ax = 'x' ∨ ax = 'X' then rx t.c t.s
-  else if ax = 'y' ∨ ax = 'Y' then ry t.c t.s
-  else rz t.c t.s
+/-- elementary active rotation about the axis named by a letter of a scipy sequence string;
+`none` for any letter scipy does not accept -/
+def axisRot (ax : Char) (t : Ang α) : Option (M3 α) :=
+  if ax = 'x' ∨ ax = 'X' then some (rx t.c t.s)
+  else if ax = 'y' ∨ ax = 'Y' then some (ry t.c t.s)
+  else if ax = 'z' ∨ ax = 'Z' then some (rz t.c t.s)
+  else none
 
 /-- `scipy.spatial.transform.Rotation.from_euler(seq, [a, b, c]).as_matrix()`: upper-case sequences are
-intrinsic (`R₁(a)·R₂(b)·R₃(c)`), lower-case extrinsic (`R₃(c)·R₂(b)·R₁(a)`). -/
-def eulerMat (seq : List Char) (t : Ang3 α) : M3 α :=
+intrinsic (`R₁(a)·R₂(b)·R₃(c)`), lower-case extrinsic (`R₃(c)·R₂(b)·R₁(a)`); `none` (scipy raises) for a
+sequence that is not three axis letters of one case. Never a default matrix. -/
+def eulerMat (seq : List Char) (t : Ang3 α) : Option (M3 α) :=
   match seq with
   | [p, q, r] =>
-    if p.isUpper then axisRot p t.a * axisRot q t.b * axisRot r t.c
-    else axisRot r t.c * axisRot q t.b * axisRot p t.a
-  | _ => M3.one
+    match axisRot p t.a, axisRot q t.b, axisRot r t.c with
+    | some A, some B, some C =>
+      if p.isUpper && q.isUpper && r.isUpper then some (A * B * C)
+      else if p.isLower && q.isLower && r.isLower then some (C * B * A)
+      else none
+    | _, _, _ => none
+  | _ => none
 
-/-- rotation of a cryoCAT particle with Euler angles (phi, theta, psi): scipy extrinsic `"zxz"` -/
-def particleMat (t : Ang3 α) : M3 α := eulerMat ['z', 'x', 'z'] t
-/-- rotation described by RELION's (rlnAngleRot, rlnAngleTilt, rlnAnglePsi): intrinsic `"ZYZ"` -/
-def relionMat (t : Ang3 α) : M3 α := eulerMat ['Z', 'Y', 'Z'] t
+/-- rotation of a cryoCAT particle with Euler angles (phi, theta, psi): scipy extrinsic `"zxz"`,
+`Rz(psi)·Rx(theta)·Rz(phi)` (`Lemmas/C03.eulerMat_zxz`: this is `eulerMat "zxz"`) -/
+def particleMat (t : Ang3 α) : M3 α := zxz t.a.c t.a.s t.b.c t.b.s t.c.c t.c.s
+/-- rotation described by RELION's (rlnAngleRot, rlnAngleTilt, rlnAnglePsi): intrinsic `"ZYZ"`,
+`Rz(rot)·Ry(tilt)·Rz(psi)` (`Lemmas/C03.eulerMat_ZYZ`: this is `eulerMat "ZYZ"`) -/
+def relionMat (t : Ang3 α) : M3 α := ZYZ t.a.c t.a.s t.b.c t.b.s t.c.c t.c.s
 
 /-- which returned slot goes into which output column, and with which sign
-(`relion_df["rlnAngleRot"] = -angles[:, 0]` is `("rlnAngleRot", true, 0)`) -/
-def applySlots (slots : List (String × Bool × Nat)) (e : Ang3 α) : Ang3 α :=
+(`relion_df["rlnAngleRot"] = -angles[:, 0]` is `("rlnAngleRot", true, 0)`); `none` unless exactly three
+columns are assigned from slots 0..2 -/
+def applySlots (slots : List (String × Bool × Nat)) (e : Ang3 α) : Option (Ang3 α) :=
   match slots with
   | [(_, n0, k0), (_, n1, k1), (_, n2, k2)] =>
-    ⟨(e.slot k0).signed n0, (e.slot k1).signed n1, (e.slot k2).signed n2⟩
-  | _ => e
+    match e.slot? k0, e.slot? k1, e.slot? k2 with
+    | some a, some b, some c => some ⟨a.signed n0, b.signed n1, c.signed n2⟩
+    | _, _, _ => none
+  | _ => none
 
 /-- the matrix `convert_angles_to_relion` hands to scipy: `rot.from_euler("ZXZ", self.get_angles())` -/
-def exportFed (ang : Ang3 α) : M3 α := eulerMat Gen.C03.exportFromSeq ang
+def exportFed (ang : Ang3 α) : Option (M3 α) := eulerMat Gen.C03.exportFromSeq ang
 
 /-- `convert_angles_to_relion`: (rlnAngleRot, rlnAngleTilt, rlnAnglePsi) of a particle with (phi, theta, psi) -/
-def exportAngles (asEuler : M3 α → Ang3 α) (ang : Ang3 α) : Ang3 α :=
-  applySlots Gen.C03.exportSlots (asEuler (exportFed ang))
+def exportAngles (asEuler : M3 α → Ang3 α) (ang : Ang3 α) : Option (Ang3 α) :=
+  (exportFed ang).bind fun F => applySlots Gen.C03.exportSlots (asEuler F)
 
 /-- the matrix `convert_angles_from_relion` hands to scipy: `rot.from_euler("ZYZ", [rot, tilt, psi])` -/
-def importFed (rln : Ang3 α) : M3 α := eulerMat Gen.C03.importFromSeq rln
+def importFed (rln : Ang3 α) : Option (M3 α) := eulerMat Gen.C03.importFromSeq rln
 
 /-- `convert_angles_from_relion`: (phi, theta, psi) for RELION angles (rot, tilt, psi) -/
-def importAngles (asEuler : M3 α → Ang3 α) (rln : Ang3 α) : Ang3 α :=
-  applySlots Gen.C03.importSlots (asEuler (importFed rln))
+def importAngles (asEuler : M3 α → Ang3 α) (rln : Ang3 α) : Option (Ang3 α) :=
+  (importFed rln).bind fun F => applySlots Gen.C03.importSlots (asEuler F)
 
 end rotations
 
 /-! ### versions (in tenths: 30, 31, 40), coordinates, shifts -/
 
-def cmpVer (op : String) (v thr : Nat) : Bool :=
-  if op = "<=" then decide (v ≤ thr)
-  else if op = ">=" then decide (v ≥ thr)
-  else if op = "==" then decide (v = thr)
-  else if op = "<" then decide (v < thr)
-  else if op = ">" then decide (v > thr)
-  else false
+/-- a version test of the source, `version <op> <thr>`; `none` for an operator the model does not know -/
+def cmpVer (op : String) (v thr : Nat) : Option Bool :=
+  if op = "<=" then some (decide (v ≤ thr))
+  else if op = ">=" then some (decide (v ≥ thr))
+  else if op = "==" then some (decide (v = thr))
+  else if op = "<" then some (decide (v < thr))
+  else if op = ">" then some (decide (v > thr))
+  else none
 
 structure VNames where
   tomo : String
@@ -107,24 +121,43 @@ deriving Repr, DecidableEq
 def versionNamesIn : List (String × Nat × String × String × List String × String) → Nat → Option VNames
   | [], _ => none
   | (op, thr, t, s, sh, sp) :: rest, v =>
-    if op = "else" ∨ cmpVer op v thr = true then some ⟨t, s, sh, sp⟩ else versionNamesIn rest v
+    if op = "else" then some ⟨t, s, sh, sp⟩ else
+    match cmpVer op v thr with
+    | some true => some ⟨t, s, sh, sp⟩
+    | some false => versionNamesIn rest v
+    | none => none
 
 /-- `RelionMotl.get_version_specific_names` -/
 def versionNames (v : Nat) : Option VNames := versionNamesIn Gen.C03.nameBranches v
 
-/-- origins are in Ångström (and get divided by the pixel size) -/
-def originInAngstrom (v : Nat) : Bool := cmpVer Gen.C03.shiftScaleCmp v Gen.C03.shiftScaleThr
+/-- origins are in Ångström (and get scaled by the pixel size) -/
+def originInAngstrom (v : Nat) : Option Bool := cmpVer Gen.C03.shiftScaleCmp v Gen.C03.shiftScaleThr
 
-/-- `get_coordinates`: complete position -/
-def exportCoord [Add α] (x s : α) : α := if Gen.C03.coordAdds then x + s else x
+/-- `get_coordinates`: complete position (`none`: the source combines position and shift by an operator the
+model does not know) -/
+def exportCoord [Add α] [Sub α] (x s : α) : Option α :=
+  if Gen.C03.coordOp = "+" then some (x + s) else if Gen.C03.coordOp = "-" then some (x - s) else none
 
 /-- `prepare_particles_data`: `relion_df.loc[:, shifts_name] = np.zeros(...)` -/
-def exportOrigin [OfNat α 0] [OfNat α 1] : α := if Gen.C03.exportOriginZero then 0 else 1
+def exportOrigin [OfNat α 0] : Option α := if Gen.C03.exportOriginZero then some 0 else none
 
 /-- `convert_shifts` -/
-def importShift [Neg α] [Div α] (v : Nat) (px o : α) : α :=
+def importShift [Neg α] [Div α] [Mul α] (v : Nat) (px o : α) : Option α :=
   let w := if Gen.C03.shiftNegated then -o else o
-  if originInAngstrom v && Gen.C03.shiftScaleDivides then w / px else w
+  match originInAngstrom v with
+  | none => none
+  | some false => some w
+  | some true =>
+    if Gen.C03.shiftScaleOp = "/" then some (w / px)
+    else if Gen.C03.shiftScaleOp = "*" then some (w * px)
+    else none
+
+/-- `RelionMotl.set_version` on the column names of a DataFrame: the first rule all of whose clauses
+(each an any-of list) are met, else the default -/
+def sniffVersionIn (cols : List String) : List (List (List String) × Nat) → Nat
+  | [] => Gen.C03.versionSniffDefault
+  | (clauses, v) :: rest => if clauses.all (fun cl => cl.any (fun c => cols.contains c)) then v else sniffVersionIn cols rest
+def sniffVersion (cols : List String) : Nat := sniffVersionIn cols Gen.C03.versionSniff
 
 /-- the pose part of a cryoCAT particle -/
 structure Pose (α : Type) where
@@ -155,15 +188,16 @@ def Pose.rotation (p : Pose α) : M3 α := particleMat p.ang
 def RPose.rotation (r : RPose α) : M3 α := relionMat r.ang
 
 /-- `create_relion_df` (pose columns; binning 1) -/
-def exportPose (asEuler : M3 α → Ang3 α) (p : Pose α) : RPose α :=
-  { cx := exportCoord p.x p.sx, cy := exportCoord p.y p.sy, cz := exportCoord p.z p.sz,
-    ox := exportOrigin, oy := exportOrigin, oz := exportOrigin, ang := exportAngles asEuler p.ang }
+def exportPose [Sub α] (asEuler : M3 α → Ang3 α) (p : Pose α) : Option (RPose α) :=
+  match exportCoord p.x p.sx, exportCoord p.y p.sy, exportCoord p.z p.sz, (exportOrigin : Option α), exportAngles asEuler p.ang with
+  | some cx, some cy, some cz, some o, some a => some { cx := cx, cy := cy, cz := cz, ox := o, oy := o, oz := o, ang := a }
+  | _, _, _, _, _ => none
 
-/-- `convert_to_motl` (pose columns) -/
-def importPose [Div α] (asEuler : M3 α → Ang3 α) (v : Nat) (px : α) (r : RPose α) : Pose α :=
-  { x := r.cx, y := r.cy, z := r.cz,
-    sx := importShift v px r.ox, sy := importShift v px r.oy, sz := importShift v px r.oz,
-    ang := importAngles asEuler r.ang }
+/-- `convert_to_motl` (pose columns); `px` is the pixel size of THIS row (`rlnPixelSize` is a per-row column) -/
+def importPose [Div α] (asEuler : M3 α → Ang3 α) (v : Nat) (px : α) (r : RPose α) : Option (Pose α) :=
+  match importShift v px r.ox, importShift v px r.oy, importShift v px r.oz, importAngles asEuler r.ang with
+  | some sx, some sy, some sz, some a => some { x := r.cx, y := r.cy, z := r.cz, sx := sx, sy := sy, sz := sz, ang := a }
+  | _, _, _, _ => none
 
 end poses
 
@@ -188,7 +222,7 @@ def renumber : List Nat → List Nat
 /-- subtomo ids after import: parsed numbers; 1..n when they repeat; renumbered by half-set when every entry of
 the half-set column is 1 or 2 (`isin([1, 2]).all()`) -/
 def importSubtomoIds (parsed : List Nat) (halfsets : Option (List Nat)) : List Nat :=
-  let base := if parsed.eraseDups.length = parsed.length then parsed else List.range' 1 parsed.length
+  let base := if parsed.Nodup then parsed else List.range' 1 parsed.length
   match halfsets with
   | some hs => if hs.all (fun h => h == 1 || h == 2) then renumber hs else base
   | none => base
@@ -251,8 +285,71 @@ version ≥ 4.0 the whole last component is the number, else its second number -
 def parseSub (v : Nat) (name : List Char) : Option Nat :=
   let lc := lastComponent name
   if name ≠ [] ∧ name.all Char.isDigit then some (Nat.ofDigitChars 10 name 0)
-  else if cmpVer Gen.C03.subtomoWholeCmp v Gen.C03.subtomoWholeThr then
-    (if lc ≠ [] ∧ lc.all Char.isDigit then some (Nat.ofDigitChars 10 lc 0) else none)
-  else (numbers lc)[Gen.C03.subtomoNumberIndex]?
+  else match cmpVer Gen.C03.subtomoWholeCmp v Gen.C03.subtomoWholeThr with
+    | none => none
+    | some true => (if lc ≠ [] ∧ lc.all Char.isDigit then some (Nat.ofDigitChars 10 lc 0) else none)
+    | some false => (numbers lc)[Gen.C03.subtomoNumberIndex]?
+
+/-- `name.rsplit("/", 1)[0]`: everything before the last slash (the whole string when there is none) -/
+def beforeLastSlash : List Char → List Char
+  | [] => []
+  | h :: t => if '/' ∈ t then h :: beforeLastSlash t else if h = '/' then [] else h :: t
+
+/-- `i.rsplit("/", 1)[pos]` for the two positions the code uses; `none` for any other -/
+def componentAt (pos : Int) (name : List Char) : Option (List Char) :=
+  if pos = -1 then some (lastComponent name) else if pos = 0 then some (beforeLastSlash name) else none
+
+/-- `parse_tomo_id`, `elif` branch: no tomogram-name column, so the tomogram number is read from the
+subtomogram name — first number of its last path component (≤ 3.1) or of what precedes the last slash (4.0) -/
+def parseTomoFallback (v : Nat) (name : List Char) : Option Nat :=
+  match cmpVer Gen.C03.tomoFallbackCmp v Gen.C03.tomoFallbackThr with
+  | none => none
+  | some b =>
+    match componentAt (if b then Gen.C03.tomoFallbackPositions.1 else Gen.C03.tomoFallbackPositions.2) name with
+    | none => none
+    | some comp => (numbers comp)[Gen.C03.tomoFallbackIndex]?
+
+/-- identity part of a RELION row: tomogram name (`none`: column absent), subtomogram name, class -/
+structure RIdent where
+  tomoName : Option (List Char)
+  subName : List Char
+  cls : Nat
+
+/-- identity columns of the cryoCAT table after import (`geom3` keeps the number parsed from the name) -/
+structure IdentCols where
+  tomo : List Nat
+  sub : List Nat
+  geom3 : List Nat
+  cls : List Nat
+deriving Repr, DecidableEq
+
+/-- a column all of whose cells could be computed (`none`: the code raises on some row) -/
+def allSome {β : Type} : List (Option β) → Option (List β)
+  | [] => some []
+  | none :: _ => none
+  | some a :: t => (allSome t).map (a :: ·)
+
+/-- tomogram number of one row on import (`parse_tomo_id`, both branches) -/
+def importTomo (v : Nat) (r : RIdent) : Option Nat :=
+  match r.tomoName with
+  | some t => parseTomo t
+  | none => parseTomoFallback v r.subName
+
+/-- `geom3` after import: the number parsed from each subtomogram name (`self.df["geom3"] = subtomo_idx`) -/
+def importGeom3 (v : Nat) (rows : List RIdent) : Option (List Nat) := allSome (rows.map fun r => parseSub v r.subName)
+
+/-- identity columns of `convert_to_motl`: tomo_id, subtomo_id, geom3, class
+(`none`: some name cannot be parsed — the code raises) -/
+def importIdents (v : Nat) (rows : List RIdent) (halfsets : Option (List Nat)) : Option IdentCols :=
+  match importGeom3 v rows, allSome (rows.map (importTomo v)) with
+  | some g, some ts => some ⟨ts, importSubtomoIds g halfsets, g, rows.map (·.cls)⟩
+  | _, _ => none
+
+/-- identity columns of `create_relion_df`: generated names, half-set, class (`none`: the format has no
+`$`-sequence and the code raises) -/
+def exportIdent (tomoFmt subFmt : List Char) (tomo sub cls : Nat) : Option (RIdent × Nat) :=
+  match tomoName tomoFmt tomo, subName subFmt tomo sub with
+  | some t, some s => some (⟨some t, s, cls⟩, halfsetOf sub)
+  | _, _ => none
 
 end CryoCat.C03
